@@ -55,7 +55,10 @@ def mkcfg(kind, c, rng):
     unit = rng.choice(UNITS)
     period = c["size"] * c.get("slide", 1)
     base_ms = 1_700_000_000_000
-    base = (base_ms // (unit * period)) * period if rng.random() < 0.7 else 0
+    k = rng.random()
+    base = (base_ms // (unit * period)) * period if k < 0.7 else 0
+    if k > 0.92:
+        base = -1000 * period          # timestamps before 1970 (negative epoch values): intervals align downward there too
     return {"kind": kind, "size": c["size"], "slide": c.get("slide", 0), "moo": c["moo"], "al": c["al"],
             "unit": unit, "groups": rng.choice([1, 2, 2, 3]), "base": base, "ahead": rng.random() < 0.15}
 
